@@ -303,3 +303,211 @@ Proof. eexists. split; [vm_compute; reflexivity|]. vm_compute. split; reflexivit
 
 Lemma favfolder_not_record : forall c, lookup "FavFolder" (env c) = None.
 Proof. intros []; vm_compute; reflexivity. Qed.
+
+(* ---------------------------------------------------------------- histories: writes in one process, some refused *)
+Lemma nth_repeat0 n : forall p, nth p (repeat 0 n) 0 = 0.
+Proof. induction n as [|n IH]; intros [|p]; cbn [repeat nth]; try reflexivity. apply IH. Qed.
+
+Lemma nth_firstn_lt {A} (d : A) k : forall p l, (p < k)%nat -> nth p (firstn k l) d = nth p l d.
+Proof.
+  induction k as [|k IH]; intros p l Hp; [lia|]. destruct l as [|x l]; [reflexivity|].
+  destruct p as [|p]; cbn [firstn nth]; [reflexivity|]. apply IH. lia.
+Qed.
+
+Lemma nth_skipn_add {A} (d : A) k : forall p l, nth p (skipn k l) d = nth (k + p) l d.
+Proof.
+  induction k as [|k IH]; intros p l; [reflexivity|]. destruct l as [|x l]; [destruct p; reflexivity|].
+  cbn [skipn Nat.add nth]. apply IH.
+Qed.
+
+(* a positional write changes no byte outside the written range (bytes beyond the end read as 0) *)
+Lemma nth_write_at_outside off bs f p : (p < off \/ off + length bs <= p)%nat ->
+  nth p (write_at off bs f) 0 = nth p f 0.
+Proof.
+  intros H. unfold write_at. destruct H as [H|H].
+  - destruct (Nat.lt_ge_cases p (length f)) as [Hl|Hl].
+    + rewrite app_nth1 by (rewrite firstn_length; lia). apply nth_firstn_lt. exact H.
+    + rewrite firstn_all2 by lia. rewrite app_nth2 by lia. rewrite app_nth1 by (rewrite repeat_length; lia).
+      rewrite nth_repeat0. symmetry. apply nth_overflow. lia.
+  - destruct (Nat.lt_ge_cases p (length f)) as [Hl|Hl].
+    + replace (off - length f)%nat with 0%nat by lia. cbn [repeat app].
+      rewrite app_nth2 by (rewrite firstn_length; lia). rewrite firstn_length.
+      replace (Nat.min off (length f)) with off by lia.
+      rewrite app_nth2 by lia. rewrite nth_skipn_add. f_equal. lia.
+    + rewrite (nth_overflow f) by lia. apply nth_overflow.
+      rewrite !app_length, firstn_length, repeat_length, skipn_length. lia.
+Qed.
+
+Lemma on_dev_refuse r : exists e, on_dev DevRefuse r = UErr e.
+Proof. destruct r; eexists; reflexivity. Qed.
+
+(* a refused step leaves both files exactly as they were *)
+Lemma hstep_refused c s st : step_accepted s = false -> snd (hstep c s st) = st /\ fst (fst (hstep c s st)) = ST_ERR.
+Proof.
+  destruct s as [fname [|] uid v|[|] uid v|perm isSet now]; cbn [step_accepted]; try discriminate; intros _; cbn [hstep].
+  - destruct (on_dev_refuse (passwd_update_field c fname uid v (st_pw st))) as [e He]. rewrite He. split; reflexivity.
+  - destruct (on_dev_refuse (passwd_update_record c uid v (st_pw st))) as [e He]. rewrite He. split; reflexivity.
+Qed.
+
+Lemma run_history_cons c s h st :
+  run_history c (s :: h) st = (fst (hstep c s st) :: fst (run_history c h (snd (hstep c s st))),
+                               snd (run_history c h (snd (hstep c s st)))).
+Proof.
+  cbn [run_history]. destruct (hstep c s st) as [o st1]. cbn [fst snd].
+  destruct (run_history c h st1) as [os st2]. reflexivity.
+Qed.
+
+Lemma run_history_app c h1 : forall h2 st,
+  snd (run_history c (h1 ++ h2) st) = snd (run_history c h2 (snd (run_history c h1 st))).
+Proof.
+  induction h1 as [|s h1 IH]; intros h2 st; [reflexivity|].
+  cbn [app]. rewrite !run_history_cons. cbn [snd]. apply IH.
+Qed.
+
+(* refused writes leave no trace: the files after a history are those after its accepted steps alone *)
+Lemma history_refused_no_trace c h : forall st,
+  snd (run_history c h st) = snd (run_history c (filter step_accepted h) st).
+Proof.
+  induction h as [|s h IH]; intros st; [reflexivity|]. cbn [filter]. rewrite run_history_cons. cbn [snd].
+  destruct (step_accepted s) eqn:Ha.
+  - rewrite run_history_cons. cbn [snd]. apply IH.
+  - destruct (hstep_refused c s st Ha) as [Hs _]. rewrite Hs. apply IH.
+Qed.
+
+Lemma history_all_refused c h st : forallb (fun s => negb (step_accepted s)) h = true ->
+  snd (run_history c h st) = st.
+Proof.
+  intros H. rewrite history_refused_no_trace.
+  replace (filter step_accepted h) with (@nil step); [reflexivity|].
+  induction h as [|s h IH]; [reflexivity|]. cbn [forallb] in H. apply andb_prop in H. destruct H as [H1 H2].
+  cbn [filter]. destruct (step_accepted s); [discriminate|]. exact (IH H2).
+Qed.
+
+Lemma hstep_outside c s st p : outside p (step_range c s) ->
+  nth p (st_pw (snd (hstep c s st))) 0 = nth p (st_pw st) 0.
+Proof.
+  intros Ho. destruct s as [fname [|] uid v|[|] uid v|perm isSet now]; cbn [hstep].
+  - cbn [step_range] in Ho. unfold passwd_update_field. destruct (field_index (userec c) fname) as [i|]; [|reflexivity].
+    destruct (if String.eqb fname "Money" then uid_ok_money c uid else uid_is_valid c uid); [|reflexivity].
+    cbn [on_dev snd st_pw]. unfold field_update. apply nth_write_at_outside. apply Ho. left. reflexivity.
+  - destruct (on_dev_refuse (passwd_update_field c fname uid v (st_pw st))) as [e He]. rewrite He. reflexivity.
+  - cbn [step_range] in Ho. unfold passwd_update_record. destruct (uid_is_valid c uid); [|reflexivity].
+    cbn [on_dev snd st_pw]. apply nth_write_at_outside. apply Ho. left. reflexivity.
+  - destruct (on_dev_refuse (passwd_update_record c uid v (st_pw st))) as [e He]. rewrite He. reflexivity.
+  - destruct (passwd2_update_level2 c perm isSet now (st_pw2 st)); reflexivity.
+Qed.
+
+(* over a whole history: a byte of .PASSWDS outside the ranges of the accepted steps keeps its value;
+   refused steps contribute no range at all *)
+Lemma history_untouched c h : forall st p, outside p (touched c h) ->
+  nth p (st_pw (snd (run_history c h st))) 0 = nth p (st_pw st) 0.
+Proof.
+  induction h as [|s h IH]; intros st p Ho; [reflexivity|]. rewrite run_history_cons. cbn [snd].
+  unfold touched in Ho. cbn [flat_map] in Ho.
+  rewrite IH by (intros a n Hin; apply Ho; apply in_or_app; right; exact Hin).
+  apply hstep_outside. intros a n Hin. apply Ho. apply in_or_app. left. exact Hin.
+Qed.
+
+(* the two files are separate: .PASSWDS steps leave .PASSWD2 alone and the level-2 step leaves .PASSWDS alone *)
+Definition is_level2 (s : step) : bool := match s with SLevel2 _ _ _ => true | _ => false end.
+Lemma hstep_separate c s st :
+  (is_level2 s = false -> st_pw2 (snd (hstep c s st)) = st_pw2 st) /\
+  (is_level2 s = true -> st_pw (snd (hstep c s st)) = st_pw st).
+Proof.
+  destruct s as [fname d uid v|d uid v|perm isSet now]; cbn [is_level2 hstep]; split; intros H; try discriminate.
+  - destruct (on_dev d (passwd_update_field c fname uid v (st_pw st))); reflexivity.
+  - destruct (on_dev d (passwd_update_record c uid v (st_pw st))); reflexivity.
+  - destruct (passwd2_update_level2 c perm isSet now (st_pw2 st)); reflexivity.
+Qed.
+
+Lemma history_separate c h : forall st,
+  (forallb (fun s => negb (is_level2 s)) h = true -> st_pw2 (snd (run_history c h st)) = st_pw2 st) /\
+  (forallb is_level2 h = true -> st_pw (snd (run_history c h st)) = st_pw st).
+Proof.
+  induction h as [|s h IH]; intros st; [split; reflexivity|]. rewrite run_history_cons. cbn [snd forallb].
+  destruct (IH (snd (hstep c s st))) as [I1 I2]. destruct (hstep_separate c s st) as [S1 S2].
+  split; intros H; apply andb_prop in H; destruct H as [H1 H2].
+  - rewrite (I1 H2). apply S1. destruct (is_level2 s); [discriminate|reflexivity].
+  - rewrite (I2 H2). apply S2. exact H1.
+Qed.
+
+Lemma passwd_update_field_accepts c fname i uid v f :
+  field_index (userec c) fname = Some i -> 1 <= uid <= max_users c ->
+  passwd_update_field c fname uid v f = UOk (field_update (userec c) i uid v f).
+Proof.
+  intros Hi Hu. unfold passwd_update_field. rewrite Hi.
+  replace (if String.eqb fname "Money" then uid_ok_money c uid else uid_is_valid c uid) with true; [reflexivity|].
+  destruct (String.eqb fname "Money"); [unfold uid_ok_money|unfold uid_is_valid]; lia.
+Qed.
+
+(* after ANY history (accepted and refused steps in any order, from any files) a single-field update behaves as a
+   first one: accepted, it satisfies the whole frame with respect to the file the history left and leaves
+   .PASSWD2 alone; refused, it reports the error and leaves both files as they were *)
+Lemma history_step_frame : forall c h st0 fname i uid v,
+  let st := snd (run_history c h st0) in
+  field_index (userec c) fname = Some i ->
+  wt (field_ty (userec c) i) v = true ->
+  1 <= uid <= max_users c ->
+  go_size (userec c) * uid <= lenZ (st_pw st) ->
+  let t := userec c in
+  let sz := Z.to_nat (go_size t) in
+  let off := Z.to_nat (go_size t * (uid - 1) + field_off t i) in
+  let n := psz (field_ty t i) in
+  hstep c (SField fname DevRefuse uid v) st = ((ST_ERR, ERR_IO), st) /\
+  exists file', hstep c (SField fname DevOk uid v) st = ((ST_OK, 0), {| st_pw := file'; st_pw2 := st_pw2 st |}) /\
+    length file' = length (st_pw st) /\
+    (sz * Z.to_nat (uid - 1) <= off /\ off + n <= sz * Z.to_nat uid)%nat /\
+    firstn off file' = firstn off (st_pw st) /\
+    skipn (off + n) file' = skipn (off + n) (st_pw st) /\
+    read_at off n file' = encode (field_ty t i) v /\
+    (forall k, k <> Z.to_nat (uid - 1) -> record sz k file' = record sz k (st_pw st)) /\
+    exists old, decode t (record sz (Z.to_nat (uid - 1)) (st_pw st)) = Some (VList old, []) /\
+                decode t (record sz (Z.to_nat (uid - 1)) file') = Some (VList (set_nth i v old), []).
+Proof.
+  intros c h st0 fname i uid v st Hi Hv Hu Hlen. cbv zeta.
+  pose proof (passwd_update_field_accepts c fname i uid v (st_pw st) Hi Hu) as Hacc.
+  split; [cbn [hstep]; rewrite Hacc; reflexivity|].
+  exists (field_update (userec c) i uid v (st_pw st)).
+  split; [cbn [hstep]; rewrite Hacc; reflexivity|].
+  destruct (partial_update_frame c fname i uid v (st_pw st) _ Hi Hv Hacc Hlen) as (_ & H).
+  exact H.
+Qed.
+
+(* types.BinaryWrite to a writer: what reaches the writer is the value's image, whole (then it reads back as the
+   value and has the packed size) or, when the writer refuses, a prefix of it - never anything else *)
+Lemma binary_write_delivers : forall t v room, wt t v = true -> rty_wf t = true ->
+  let o := fst (binary_write_to t v room) in
+  let got := snd (binary_write_to t v room) in
+  (o = (ST_OK, 0) /\ got = encode t v /\ decode t got = Some (v, []) /\ lenZ got = packed_size t) \/
+  (o = (ST_ERR, ERR_IO) /\ exists k, room = Some k /\ (k < length (encode t v))%nat /\ got = firstn k (encode t v)).
+Proof.
+  intros t v room Hv Hwf. cbv zeta. destruct (codec_roundtrip t v Hv) as [Hd Hl]. specialize (Hl Hwf).
+  unfold binary_write_to. destruct room as [k|].
+  - destruct (Nat.leb_spec (length (encode t v)) k) as [Hle|Hgt]; cbn [fst snd].
+    + left. repeat split; assumption.
+    + right. split; [reflexivity|]. exists k. repeat split. exact Hgt.
+  - left. cbn [fst snd]. repeat split; assumption.
+Qed.
+
+Example history_nonvacuous :
+  let h := [SRecord DevRefuse 1 (VList []); SField "Money" DevOk 2 (VInt 77); SField "Money" DevRefuse 1 (VInt 5);
+            SLevel2 5 true 1600000000] in
+  let r := run_history Default h {| st_pw := repeat 7 1024; st_pw2 := None |} in
+  fst r = [(3, 4); (0, 0); (3, 4); (0, 0)] /\
+  st_pw (snd r) = repeat 7 632 ++ [77; 0; 0; 0] ++ repeat 7 388 /\
+  st_pw2 (snd r) = Some ([1; 0; 0; 0; 5; 0; 0; 0; 0; 16; 94; 95] ++ repeat 0 116) /\
+  touched Default h = [(632, 4)]%nat.
+Proof. vm_compute. repeat split; reflexivity. Qed.
+
+Lemma history_refused_all :
+  (forall c h st, snd (run_history c h st) = snd (run_history c (filter step_accepted h) st)) /\
+  (forall c s st, step_accepted s = false -> snd (hstep c s st) = st /\ fst (fst (hstep c s st)) = ST_ERR) /\
+  (forall c h st, forallb (fun s => negb (step_accepted s)) h = true -> snd (run_history c h st) = st).
+Proof. exact (conj history_refused_no_trace (conj hstep_refused history_all_refused)). Qed.
+
+Lemma history_untouched_all :
+  (forall c h st p, outside p (touched c h) -> nth p (st_pw (snd (run_history c h st))) 0 = nth p (st_pw st) 0) /\
+  (forall c h st,
+     (forallb (fun s => negb (is_level2 s)) h = true -> st_pw2 (snd (run_history c h st)) = st_pw2 st) /\
+     (forallb is_level2 h = true -> st_pw (snd (run_history c h st)) = st_pw st)).
+Proof. exact (conj history_untouched history_separate). Qed.
